@@ -50,8 +50,8 @@ type Network struct {
 	// DialFault, if set, can make DialUDP fail.
 	DialFault func(dest string) error
 	// Hook, if set, is called for every datagram handed to a socket, before the fault decision.
-	Hook func(d *Datagram)
-	Faults    int
+	Hook   func(d *Datagram)
+	Faults int
 }
 
 // Net is the network of the current run; the harness replaces it per run.
@@ -65,6 +65,7 @@ type UDPConn struct {
 	closed bool
 	Sent   int
 	nw     *Network
+	real   *net.UDPConn // outside a simulation (shim self-test): the real socket
 }
 
 // ResolveUDPAddr resolves numeric addresses without touching the network.
@@ -76,6 +77,13 @@ func ResolveUDPAddr(network, address string) (*UDPAddr, error) {
 //
 //go:norace
 func DialUDP(network string, laddr, raddr *UDPAddr) (*UDPConn, error) {
+	if simrt.Active() == nil {
+		rc, err := net.DialUDP(network, laddr, raddr)
+		if err != nil {
+			return nil, err
+		}
+		return &UDPConn{real: rc, remote: raddr}, nil
+	}
 	nw := Net
 	if raddr == nil {
 		return nil, &net.OpError{Op: "dial", Net: network, Err: errors.New("missing address")}
@@ -95,6 +103,13 @@ func DialUDP(network string, laddr, raddr *UDPAddr) (*UDPConn, error) {
 
 // ListenUDP creates a simulated listening socket.
 func ListenUDP(network string, laddr *UDPAddr) (*UDPConn, error) {
+	if simrt.Active() == nil {
+		rc, err := net.ListenUDP(network, laddr)
+		if err != nil {
+			return nil, err
+		}
+		return &UDPConn{real: rc}, nil
+	}
 	nw := Net
 	if laddr == nil {
 		laddr = &UDPAddr{IP: net.IPv4(127, 0, 0, 1), Port: 50000 + len(nw.Conns)}
@@ -138,6 +153,9 @@ func (c *UDPConn) Remote() string {
 //
 //go:norace
 func (c *UDPConn) Write(b []byte) (int, error) {
+	if c.real != nil {
+		return c.real.Write(b)
+	}
 	simrt.Point(simrt.OpNet, unsafe.Pointer(c))
 	nw := c.nw
 	c.Sent++
@@ -167,6 +185,9 @@ func (c *UDPConn) Write(b []byte) (int, error) {
 
 // Read is not supported by the simulated network (tally only sends).
 func (c *UDPConn) Read(b []byte) (int, error) {
+	if c.real != nil {
+		return c.real.Read(b)
+	}
 	if c.closed {
 		return 0, c.opErr("read", net.ErrClosed)
 	}
@@ -177,6 +198,9 @@ func (c *UDPConn) Read(b []byte) (int, error) {
 //
 //go:norace
 func (c *UDPConn) Close() error {
+	if c.real != nil {
+		return c.real.Close()
+	}
 	simrt.Point(simrt.OpNet, unsafe.Pointer(c))
 	if c.closed {
 		return c.opErr("close", net.ErrClosed)
@@ -192,6 +216,9 @@ func (c *UDPConn) Close() error {
 func (c *UDPConn) ForceClose() { c.closed = true }
 
 func (c *UDPConn) LocalAddr() Addr {
+	if c.real != nil {
+		return c.real.LocalAddr()
+	}
 	if c.local == nil {
 		return nil
 	}
@@ -199,6 +226,9 @@ func (c *UDPConn) LocalAddr() Addr {
 }
 
 func (c *UDPConn) RemoteAddr() Addr {
+	if c.real != nil {
+		return c.real.RemoteAddr()
+	}
 	if c.remote == nil {
 		return nil
 	}
@@ -209,7 +239,13 @@ func (c *UDPConn) SetDeadline(t time.Time) error      { return nil }
 func (c *UDPConn) SetReadDeadline(t time.Time) error  { return nil }
 func (c *UDPConn) SetWriteDeadline(t time.Time) error { return nil }
 func (c *UDPConn) SetReadBuffer(n int) error          { return nil }
-func (c *UDPConn) SetWriteBuffer(n int) error         { return nil }
+
+func (c *UDPConn) SetWriteBuffer(n int) error {
+	if c.real != nil {
+		return c.real.SetWriteBuffer(n)
+	}
+	return nil
+}
 
 func (c *UDPConn) ReadFrom(b []byte) (int, Addr, error) {
 	n, err := c.Read(b)
